@@ -27,6 +27,8 @@ def _kaisa_case(draw, worlds):
     case = {'kind': 'kaisa', 'W': W, 'method': method, 'prediv': prediv, 'spec': spec,
             'in_hook': draw(st.booleans()), 'accum': draw(st.sampled_from([1, 1, 2])), 'N': draw(st.integers(1, 2)),
             'zero_to_none': draw(st.booleans()),
+            'inv_dtype': draw(st.sampled_from(['float32', 'float32', 'float64'])), 'factor_dtype': draw(st.sampled_from([None, None, 'float64'])),
+            'param_dtype': draw(st.sampled_from(['float32', 'float32', 'float32', 'float64'])),
             'hp': {'factor_update_steps': fus, 'inv_update_steps': ius, 'damping': 0.01, 'factor_decay': 0.9,
                    'kl_clip': draw(st.sampled_from([1e-3, 1e30])), 'lr': 0.1}}
     case.update(draw(placement(W, method, prediv)))
